@@ -18,7 +18,7 @@ CLAUSES = {
 }
 FUNCTIONS = ["BaseTaskPool.cancel", "BaseTaskPool._get_running_task", "BaseTaskPool._get_cancel_kw"]
 
-VAR = ("rel", "cancel", "cbrel", "flush", "fail", "nop")
+VAR = ("rel", "cancel", "cbrel", "flush", "fail", "selfret", "nop")
 NOP = len(VAR) - 1
 
 
@@ -59,7 +59,12 @@ def tpl_cancel(v, av, e, k, i1, i2, i3, t, m=0, sw=0, _twin=False):
             if task_outcome(f0)[0] != "ok" or len(w.W) != 5:
                 return 605
             # one symbolic variation step, then optionally a fresh request placed t iterations before the call
-            act(it, select(VAR, v), av)
+            if select(VAR, v) == "selfret":
+                # a sixth task that cancels itself and returns at once: it *ended* (end callback, counted as ended)
+                it.selfret()
+                it.apply(1)
+            else:
+                act(it, select(VAR, v), av)
             w.settle()
             if e == 1:
                 it.apply(1)
@@ -150,9 +155,9 @@ def families(tier):
     k3 = [["k == 3", "i1 <= 0"], ["k == 3", "i1 == 1"], ["k == 3", "i1 == 2"], ["k == 3", "i1 == 3"], ["k == 3", "i1 >= 4"]]
     k2 = [["k == 2", "i1 <= 1"], ["k == 2", "i1 == 2 or i1 == 3"], ["k == 2", "i1 >= 4"]]
     if not thorough:
-        pre += ["v == %d or v == 1 or v == 3" % NOP, "e == 0 or k <= 2", "e == 0 or v == %d" % NOP,
+        pre += ["v == %d or v == 1 or v == 3 or v == 5" % NOP, "e == 0 or k <= 2", "e == 0 or v == %d" % NOP,
                 "m == 0 or (v == %d and e == 0 and sw == 0)" % NOP, "sw == 0 or (v == %d and e == 0 and k <= 2)" % NOP]
-        vs = (1, 3, NOP)
+        vs = (1, 3, 5, NOP)
         shapes = [["e == 0", "k <= 1"], ["e == 0", "k == 2"]] + [["e == 0"] + q for q in k3] + [["e == 1", "k <= 1"]] + [["e == 1"] + q for q in k2]
     else:
         pre += ["e == 0 or k <= 2", "e == 0 or v == %d or v == 1 or v == 3" % NOP]
